@@ -11,13 +11,17 @@ PID = 'C15'
 HARNESS = 'h_c15'
 MODEL_MODULE = 'V.C15.Model'
 READY = True
-RULE = ('cases = (1..6 options over kinds {flag store_true, flag store_false, int, string, vector<int>, ValueMap int, custom notifier, ValueMap flag store_true, ValueMap flag store_false, ValueMap vector<int>} '
+RULE = ('cases = (1..6 options over kinds {flag store_true, flag store_false, int, string, vector<int>, ValueMap int, custom notifier, ValueMap flag store_true, ValueMap flag store_false, ValueMap vector<int>, '
+        'typed notifier notify<T>(ctx, fn, parser) / flag(ctx, fn, action) with a logging context whose fn DECLINES ownership (returns false) for int / string / flag / vector<int> / flag store_false, '
+        'KEEPS (returns true) for int / string / flag / vector<int>, keeps even and declines odd ints} '
         'x composing x implicit x default(valid/invalid), 1..5 operations over assign(source of 0..7 (option,value) pairs with duplicates '
         'and refused strings at every position, optional exclude set) / assignDefaults / fresh ParsedOptions / ParsedOptions::add(name) for own and FOREIGN names / '
         'assign of a source of a SECOND context (6 string options) on the same ParsedOptions object; 30 % of the cases hand assignDefaults a set with foreign names whose total size is '
         'below / equal / above the number of options of the context while options are unmentioned; 25 % of the cases are 2..4 RUNS over the same targets: op NEW RUN destroys the option '
         'group / context / Value objects and builds them again from the same descriptors with a fresh ParsedOptions, while the bound variables, the ValueMap and the notifier log '
-        'survive; each run = 0..3 sources + mostly assignDefaults, values drawn anew per run, mapped kinds favoured); '
+        'survive; each run = 0..3 sources + mostly assignDefaults, values drawn anew per run, mapped kinds favoured; 20 % of the cases put a DECLINING typed notifier with a default first, mentioned by '
+        'the first source of a run and again by later sources, over 1..3 runs, next to keeping / custom / plain options); observation of a typed notifier = objects made / deleted by the library / deleted by the '
+        'context / held object / every delivered value in order; '
         'non-trivial = at least one assign op with >= 1 pair; distinct = distinct case tuples')
 TRUSTED_BASE = ['typed parsers (string_cast<int/bool/vector<int>>) are abstract in the theorems; their concrete model used for the '
                 'correspondence covers the decimal sublanguage only (C16 covers conversions)',
@@ -33,16 +37,35 @@ LEVEL_TEXT = ('Machine-checked proofs (Coq) over the model of ParsedOptions::ass
               'several runs over the same targets with the option set re-built for every run (fresh value states, surviving variables / ValueMap): after every run each option that received a '
               'value in that run holds store(the parser results of that run) applied to the re-built variable, unmentioned options their default or what earlier runs left '
               '(c15_run_values, c15_runs), and for every target an accepted value replaces - all typed scalars, all mapped values - nothing of the earlier runs survives '
-              '(c15_run_independent_of_earlier_runs); the model is tied to the code by '
-              'differential correspondence against the real classes with ten kinds of typed targets, and an independent python oracle.')
+              '(c15_run_independent_of_earlier_runs); typed notified values (NotifiedValue<T>::doParse): the notification function is called exactly once per accepted occurrence with the parsed object and its '
+              'answer only selects who owns the object - errors, recorded names, states, accepted values, first-source-wins and defaults are the same for any two answer functions '
+              '(c15_notifier_answer_selects_ownership_only, c15_notifier_called_once_per_accepted_value, c15_notified_objects_accounted, c15_declined_value_is_accepted), whereas for the untyped custom value the '
+              'callback\'s answer is the validity (c15_custom_answer_is_validity); the model is tied to the code by '
+              'differential correspondence against the real classes with twenty kinds of typed targets, and an independent python oracle.')
 LEVEL_NOTE = ('Parsers are abstract in the proofs (any function string -> option value, plus what a refused string leaves in the variable, plus what re-building '
-              'an option does to the model of its variable: nothing for a typed variable, "the entry is no longer the value\'s own object" for a mapped one).')
+              'an option does to the model of its variable: nothing for a typed variable, "the entry is no longer the value\'s own object" for a mapped one). '
+              'For typed notified values the object model (create / apply / leftover of a refused string) and the answer function are abstract as well; the harness\' notified context '
+              '(copies every value into a log, deletes the object it held when handed a newer one) is part of the model of the variable. Plain bool objects of the flag kinds cannot be counted (ASan / LSan only).')
 
 INT_MIN, INT_MAX = -2 ** 31, 2 ** 31 - 1
 FLAGS = (0, 1, 7, 8)          # bool flags: bound to a bool& (0, 1) or stored in a ValueMap (7, 8)
 STORE_TRUE = (0, 7)           # declared with store_true (the default action); 1 and 8 are declared with store_false
 MAPPED = (5, 7, 8, 9)         # the value lives in the ValueMap (store<int>, flag, flag store_false, store<vector<int>>)
-NKINDS = 10
+NKINDS = 20
+# typed notifiers with a logging context (typed_value.h notify<T>(obj, fn, parser) / flag(obj, fn, action)): the function copies every delivered value
+# into its log; its RETURN VALUE only selects who owns the created object: 10..13, 19 decline (false), 14..17 keep (true), 18 keeps even values
+TNOTIF = tuple(range(10, 20))
+BASE = {10: 2, 14: 2, 18: 2, 11: 3, 15: 3, 12: 0, 16: 0, 19: 1, 13: 4, 17: 4}      # element type, as the kind of the plain typed target
+IMPLICIT_FLAGS = FLAGS + (12, 16, 19)
+
+
+def base(kind):
+    return BASE.get(kind, kind)
+
+
+def keeps(kind, ob):
+    """the answer of the notification function of the harness for the delivered object"""
+    return 14 <= kind <= 17 or (kind == 18 and bool(ob) and ob[0] % 2 == 0)
 BOOL_WORDS = [('1', 1), ('0', 0), ('no', 0), ('on', 1), ('yes', 1), ('off', 0), ('true', 1), ('false', 0)]
 
 
@@ -72,7 +95,7 @@ def decode(c):
         d = ost()
         if impl is not None and not impl:
             impl = [49]
-        if impl is None and kind in FLAGS:
+        if impl is None and kind in IMPLICIT_FLAGS:
             impl = [49]
         opts.append({'kind': kind, 'comp': comp, 'impl': impl, 'dflt': d})
     ops = []
@@ -114,7 +137,9 @@ def s2t(b):
     return bytes(x & 255 for x in b).decode('latin-1')
 
 
-KN = ['flag', 'flag!false', 'int', 'string', 'vector<int>', 'map<int>', 'custom', 'map<flag>', 'map<flag!false>', 'map<vector<int>>']
+KN = ['flag', 'flag!false', 'int', 'string', 'vector<int>', 'map<int>', 'custom', 'map<flag>', 'map<flag!false>', 'map<vector<int>>',
+      'notify<int>:declines', 'notify<string>:declines', 'notify<flag>:declines', 'notify<vector<int>>:declines',
+      'notify<int>:keeps', 'notify<string>:keeps', 'notify<flag>:keeps', 'notify<vector<int>>:keeps', 'notify<int>:keeps-even', 'notify<flag!false>:declines']
 
 
 def describe(c):
@@ -202,6 +227,78 @@ def parse(kind, s):
     return list(s), False
 
 
+def scan_vec(s):
+    """convert_seq<int> with ',' : (elements pushed, rest)"""
+    out, rest = [], list(s)
+    while True:
+        r = scan_int(rest)
+        if r == 'unsupported' or r is None:
+            break
+        out.append(r[0])
+        rest = r[1]
+        if not rest or rest[0] != 44 or len(rest) < 2:
+            break
+        rest = rest[1:]
+    return out, rest
+
+
+def leftover(b, s, ob):
+    """what a REFUSED string leaves in an object of element type b that is parsed IN PLACE (a kept object of a typed notifier)"""
+    if b == 2:
+        r = scan_int(s)
+        return [r[0]] if r not in (None, 'unsupported') else ob
+    if b == 0:
+        t = s2t(s)
+        for w, v in BOOL_WORDS:
+            if t.startswith(w):
+                return [v]
+        return ob
+    if b == 4:
+        return ob + scan_vec(s)[0]
+    return ob
+
+
+class TN(object):
+    """reference reading of a typed notified value: what the context has seen / owns, and the bookkeeping of the created objects"""
+
+    def __init__(self, kind):
+        self.kind, self.b = kind, base(kind)
+        self.loc, self.held, self.log, self.made, self.freed, self.cfreed = False, None, [], 0, 0, 0
+
+    def fresh(self):
+        return [0] if self.b in (0, 1, 2) else []
+
+    def accepted(self, x):
+        # the parser accepted the string: the option HAS its value, the function sees it exactly once; its answer decides ownership only
+        if self.loc and self.held is not None:
+            self.held = (self.held + x) if self.b == 4 else list(x)
+            self.log.append(list(self.held))
+            return
+        pv = (self.fresh() + x) if self.b == 4 else list(x)
+        self.made += 1
+        self.log.append(list(pv))
+        if keeps(self.kind, pv):
+            if self.held is not None:
+                self.cfreed += 1
+            self.held, self.loc = pv, True
+        else:
+            self.freed += 1              # a declined object is deleted by the library - exactly once
+
+    def refused(self, s):
+        if self.loc and self.held is not None:
+            self.held = leftover(self.b, s, self.held)
+        else:
+            self.made += 1
+            self.freed += 1
+
+    def view(self):
+        cnt = [0, 0] if self.b in (0, 1) else [self.made, self.freed]
+        out = cnt + [self.cfreed, 0 if self.held is None else 1, 0 if self.held is None else len(self.held)] + (self.held or [])
+        for e in self.log:
+            out += [len(e)] + e
+        return out
+
+
 def init_var(kind):
     return [0] if kind in (0, 1) else [-777] if kind == 2 else []     # mapped values (5, 7, 8) are absent until the first accepted value
 
@@ -230,6 +327,7 @@ def oracle(c, obs):
     var = [init_var(o['kind']) for o in opts]
     dirty = [False] * n
     owned = [False] * n        # mapped kinds: the entry of the map is the object of the option's CURRENT Value (False again after a re-build)
+    tn = [TN(o['kind']) if o['kind'] in TNOTIF else None for o in opts]    # typed notifiers: log / ownership / object bookkeeping
     runs = 0
     pos = [0]
 
@@ -250,6 +348,9 @@ def oracle(c, obs):
             parsed = set()
             state = [0] * n
             owned = [False] * n
+            for t in tn:
+                if t is not None:
+                    t.loc = False         # the fresh Value has handed nothing over yet; the context keeps its object and its log
             runs += 1
             continue
         if op[0] == 'add':
@@ -280,13 +381,21 @@ def oracle(c, obs):
                 if not o['comp'] and i in got:
                     exp_err = (1, i, v)           # two occurrences inside one source
                     break
-                x, d = parse(o['kind'], eff(i, v))
+                x, d = parse(base(o['kind']), eff(i, v))
                 if x == 'unsupported':
                     return []
                 if x is None:
                     exp_err = (3, i, v)           # refused value: names option and value
+                    if tn[i] is not None:
+                        tn[i].refused(eff(i, v))
+                        break
                     dirty[i] = dirty[i] or (d and (o['kind'] not in MAPPED or owned[i]))   # a fresh mapped value parses into a temporary
                     break
+                if tn[i] is not None:
+                    # typed notifier: the PARSER accepted, so the option received its value - whatever the notification function answers
+                    tn[i].accepted(x)
+                    got.append(i)
+                    continue
                 var[i] = store(o['kind'], x, var[i], owned[i])
                 if o['kind'] != 4 and not (o['kind'] == 9 and owned[i]):
                     dirty[i] = False
@@ -301,13 +410,20 @@ def oracle(c, obs):
                 o = opts[i]
                 if i in parsed or o['dflt'] is None or state[i] == 1:
                     continue
-                x, d = parse(o['kind'], eff(i, o['dflt']))
+                x, d = parse(base(o['kind']), eff(i, o['dflt']))
                 if x == 'unsupported':
                     return []
                 if x is None:
                     exp_err = (2, i, o['dflt'])
+                    if tn[i] is not None:
+                        tn[i].refused(eff(i, o['dflt']))
+                        break
                     dirty[i] = dirty[i] or (d and (o['kind'] not in MAPPED or owned[i]))
                     break
+                if tn[i] is not None:
+                    tn[i].accepted(x)
+                    state[i] = 1
+                    continue
                 var[i] = store(o['kind'], x, var[i], owned[i])
                 if o['kind'] != 4 and not (o['kind'] == 9 and owned[i]):
                     dirty[i] = False
@@ -323,6 +439,14 @@ def oracle(c, obs):
             got_err = (et[0], k, val)
         else:
             got_err = None
+        if got_err is not None and (exp_err is None or (exp_err[0], exp_err[1], list(exp_err[2])) != (got_err[0], got_err[1], list(got_err[2]))) \
+                and got_err[0] in (2, 3) and 0 <= got_err[1] < n and tn[got_err[1]] is not None:
+            # an error that names a typed-notifier option and a string its PARSER accepts: the answer of the notification function (false =
+            # "I copied the value, delete the object") was taken for the validity of the value
+            k = got_err[1]
+            x, _ = parse(base(opts[k]['kind']), eff(k, list(got_err[2])))
+            if x is not None and x != 'unsupported':
+                return ['accepted-%s-reported-as-invalid-because-notifier-declined-ownership' % ('value' if got_err[0] == 3 else 'default')]
         if exp_err is None and got_err is not None:
             return ['unexpected-error:type%d' % (got_err[0] - 1)]
         if exp_err is not None and got_err is None:
@@ -344,6 +468,19 @@ def oracle(c, obs):
                 if op[0] == 'defaults' and state[i] == 1 and s_ == 0 and i not in parsed:
                     return ['default-not-applied-to-unmentioned-option']
                 return ['value-state-not-restored' if s_ == 2 else 'value-state-differs']
+            if tn[i] is not None:
+                exp = tn[i].view()
+                if content != exp:
+                    run_sfx = (':in-run-%d-over-the-same-targets' % (runs + 1) if runs else '')
+                    hl_e, hl_g = 5 + exp[4], 5 + (content[4] if len(content) > 4 else 0)
+                    if content[hl_g:] != exp[hl_e:]:
+                        # the log: every value delivered to the notification function, in order - one entry per accepted occurrence
+                        return ['notifier-log-differs:' + KN[opts[i]['kind']] + run_sfx]
+                    if content[:4] != exp[:4]:
+                        # made / deleted by the library / deleted by the context / held: a declined object is deleted exactly once, a kept one handed over
+                        return ['object-accounting-differs:' + KN[opts[i]['kind']] + run_sfx]
+                    return ['kept-object-differs:' + KN[opts[i]['kind']] + run_sfx]
+                continue
             if not dirty[i] and content != var[i]:
                 return ['variable-differs:' + KN[opts[i]['kind']] + (':in-run-%d-over-the-same-targets' % (runs + 1) if runs else '')]
     return []
@@ -384,7 +521,7 @@ def parsed_after(opts, ops):
                     continue
                 if not o['comp'] and i in got:
                     break
-                x, d = parse(o['kind'], o['impl'] if (not v and o['impl'] is not None) else v)
+                x, d = parse(base(o['kind']), o['impl'] if (not v and o['impl'] is not None) else v)
                 if x is None or x == 'unsupported':
                     break
                 got.append(i)
@@ -410,6 +547,11 @@ BAD = {0: ['x', '1x', 'truex', 'nope', 'o', 'TRUE', 'yes ', '2'], 1: ['x', '0x',
        5: ['', 'x', '5x', '2147483648', 'a1'], 6: ['!', '!a', '!!'],
        7: ['x', '1x', 'truex', 'nope', 'o', 'TRUE', 'yes ', '2'], 8: ['x', '0x', 'offf', 'f', '1x'],
        9: ['', 'x', '1,', ',1', '1,,2', '1,x', '1x', '2147483648', '6,2147483648']}
+
+
+for _k in TNOTIF:
+    GOOD[_k] = GOOD[base(_k)]
+    BAD[_k] = BAD[base(_k)]
 
 
 def rand_val(rnd, kind, p_bad):
@@ -478,16 +620,16 @@ def gen_runs(rnd):
     enc = [n]
     kinds, impls = [], []
     for i in range(n):
-        k = rnd.choice([5, 5, 5, 7, 8, 9, 9, 2, 3, 4, 0, 1, 6])
+        k = rnd.choice([5, 5, 5, 7, 8, 9, 9, 2, 3, 4, 0, 1, 6, 10, 13, 14, 17, 17, 18, 16, 15])
         kinds.append(k)
-        comp = 1 if rnd.random() < (0.5 if k in (4, 6, 9) else 0.12) else 0
+        comp = 1 if rnd.random() < (0.5 if k in (4, 6, 9, 13, 17, 18) else 0.12) else 0
         enc += [k, comp]
         if rnd.random() < 0.15:
             enc += [1] + enc_str(rnd.choice(['', rand_val(rnd, k, 0.1)]))
             impls.append(True)
         else:
             enc += [0]
-            impls.append(k in FLAGS)
+            impls.append(k in IMPLICIT_FLAGS)
         if rnd.random() < 0.55:
             enc += [1] + enc_str(rand_val(rnd, k, 0.12))
         else:
@@ -512,10 +654,61 @@ def gen_runs(rnd):
             enc += [len(pairs)]
             for i in pairs:
                 v = rand_val(rnd, kinds[i], p_bad)
-                if v == '' and not impls[i] and kinds[i] in FLAGS:
+                if v == '' and not impls[i] and kinds[i] in IMPLICIT_FLAGS:
                     v = '1'
                 enc += [i] + enc_str(v)
         if rnd.random() < 0.75:
+            enc += [2]
+    return enc
+
+
+DECLINING = (10, 11, 12, 13, 19, 18)
+
+
+def gen_declining(rnd):
+    """A typed notifier that copies the value and DECLINES ownership (returns false), with a default, mentioned by the FIRST source of a run and
+    again by later sources, over 1..3 runs (option set re-built, the context and its log survive): the value of the first source is accepted and
+    delivered exactly once, the option is recorded, later sources and the default do not reach the function.  Now and then the option is not
+    mentioned in a run (then the default is delivered once), gets a refused string, or is composing (every source delivers); other options
+    of every kind (keeping notifiers, the untyped custom notifier whose answer DOES mean invalid) sit next to it."""
+    n = rnd.choice([1, 1, 2, 2, 3])
+    enc = [n]
+    kinds = []
+    for i in range(n):
+        k = rnd.choice(DECLINING) if i == 0 or rnd.random() < 0.3 else rnd.choice([14, 15, 16, 17, 18, 6, 2, 3, 5, 9, 0])
+        kinds.append(k)
+        comp = 1 if rnd.random() < (0.3 if k in (13, 17, 18, 4, 6, 9) else 0.08) else 0
+        enc += [k, comp]
+        if rnd.random() < 0.12:
+            enc += [1] + enc_str(rnd.choice(['', rand_val(rnd, k, 0.0)]))
+        else:
+            enc += [0]
+        if i == 0 and rnd.random() < 0.9 or rnd.random() < 0.5:
+            enc += [1] + enc_str(rand_val(rnd, k, 0.06))
+        else:
+            enc += [0]
+    p_bad = rnd.choice([0.0, 0.0, 0.0, 0.1])
+    for r in range(rnd.choice([1, 1, 2, 2, 3])):
+        if r:
+            enc += [6]
+        mention = rnd.random() < 0.85
+        for j in range(rnd.choice([1, 2, 2, 3, 3])):
+            ids = []
+            if mention and (j == 0 or rnd.random() < 0.8):
+                ids.append(0)                      # the first source mentions the declining option, the later ones mention it AGAIN
+            for i in range(1, n):
+                if rnd.random() < 0.5:
+                    ids.append(i)
+            if ids and rnd.random() < 0.06:
+                ids.append(rnd.choice(ids))        # a duplicate inside one source
+            rnd.shuffle(ids)
+            enc += [1, 0, len(ids)]
+            for i in ids:
+                v = rand_val(rnd, kinds[i], p_bad)
+                enc += [i] + enc_str(v)
+        if rnd.random() < 0.9:
+            enc += [2]
+        if rnd.random() < 0.15:
             enc += [2]
     return enc
 
@@ -528,7 +721,7 @@ def gen_case(rnd, shape=None):
     for i in range(n):
         k = rnd.randrange(NKINDS)
         kinds.append(k)
-        comp = 1 if rnd.random() < (0.6 if k in (4, 6, 9) else 0.25) else 0
+        comp = 1 if rnd.random() < (0.6 if k in (4, 6, 9, 13, 17, 18) else 0.25) else 0
         enc += [k, comp]
         if rnd.random() < 0.25:
             iv = rnd.choice(['', rand_val(rnd, k, 0.3)])
@@ -536,7 +729,7 @@ def gen_case(rnd, shape=None):
             impls.append(True)
         else:
             enc += [0]
-            impls.append(k in FLAGS)
+            impls.append(k in IMPLICIT_FLAGS)
         if rnd.random() < (0.8 if shape == 'foreign' else 0.45):
             enc += [1] + enc_str(rand_val(rnd, k, 0.25))
         else:
@@ -572,7 +765,7 @@ def gen_case(rnd, shape=None):
         enc += [len(pairs)]
         for i in pairs:
             v = rand_val(rnd, kinds[i], p_bad)
-            if v == '' and not impls[i] and kinds[i] in FLAGS:
+            if v == '' and not impls[i] and kinds[i] in IMPLICIT_FLAGS:
                 v = '1'
             enc += [i] + enc_str(v)
     return enc
@@ -621,6 +814,31 @@ FIXED = [
     [2, 7, 0, 0, 0, 8, 0, 0, 0, 1, 0, 2, 0, 0, 1, 0, 6, 1, 0, 2, 0, 2, 110, 111, 1, 2, 110, 111],
     # refused string for a fresh mapped value: the entry of run 1 is untouched, then an accepted one replaces it; in-place leftovers of '5,y'
     [2, 5, 0, 0, 0, 9, 1, 0, 0, 1, 0, 2, 0, 1, 51, 1, 1, 49, 6, 1, 0, 1, 0, 2, 53, 120, 1, 0, 1, 1, 3, 49, 44, 120, 1, 0, 2, 1, 1, 52, 1, 3, 53, 44, 121, 1, 0, 1, 0, 1, 56],
+    # ---- typed notifiers: the function copies the value into its log; its return value only says who owns the created object ----
+    # [o0 = notify<int> DECLINES, default '1'] assign(o0='3') -> assign(o0='7') -> defaults: accepted, recorded, log [3]; 7 and the default never delivered
+    [1, 10, 0, 0, 1, 1, 49, 1, 0, 1, 0, 1, 51, 1, 0, 1, 0, 1, 55, 2],
+    # the same with a function that KEEPS the object: same errors / parsed set / states, the context owns the object
+    [1, 14, 0, 0, 1, 1, 49, 1, 0, 1, 0, 1, 51, 1, 0, 1, 0, 1, 55, 2],
+    # the demo of the seeded change: level = notify<int> declines default '1', name = string default 'anon': [level=3] [level=7 name=bob] defaults
+    [2, 10, 0, 0, 1, 1, 49, 3, 0, 0, 1, 4, 97, 110, 111, 110, 1, 0, 1, 0, 1, 51, 1, 0, 2, 0, 1, 55, 1, 3, 98, 111, 98, 2],
+    # declining vector, composing: '1,2' and '9' are delivered as [1,2] and [9] (a new object each time); '5,x' refused; '8' delivered
+    [1, 13, 1, 0, 0, 1, 0, 2, 0, 3, 49, 44, 50, 0, 1, 57, 1, 0, 1, 0, 3, 53, 44, 120, 1, 0, 1, 0, 1, 56],
+    # keeping vector, composing: in place - [1,2], [1,2,9]; '5,x' leaves 5 in the kept object; NEW RUN: a new object [4] replaces it
+    [1, 17, 1, 0, 0, 1, 0, 2, 0, 3, 49, 44, 50, 0, 1, 57, 1, 0, 1, 0, 3, 53, 44, 120, 1, 0, 1, 0, 1, 56, 6, 1, 0, 1, 0, 1, 52],
+    # declining flag: implicit value accepted, recorded; a later '1x' is ignored (already parsed)
+    [1, 12, 0, 0, 0, 1, 0, 1, 0, 0, 1, 0, 1, 0, 2, 49, 120],
+    # declining flag(store_false) default 'no': defaults delivers true; then assign(o0='') delivers false
+    [1, 19, 0, 0, 1, 2, 110, 111, 2, 1, 0, 1, 0, 0],
+    # int that keeps even values, composing: 3 declined, 4 kept, 5 in place; then '6x' refused in place
+    [1, 18, 1, 0, 0, 1, 0, 3, 0, 1, 51, 0, 1, 52, 0, 1, 53, 1, 0, 1, 0, 2, 54, 120],
+    # declining string: assign(o0='hi') -> NEW RUN -> defaults (no default): untouched
+    [1, 11, 0, 0, 0, 1, 0, 1, 0, 2, 104, 105, 6, 2],
+    # keeping flag, composing: '' kept, '1x' refused in place, then '0' in place
+    [1, 16, 1, 0, 0, 1, 0, 2, 0, 0, 0, 2, 49, 120, 1, 0, 1, 0, 1, 48],
+    # declining int with default next to the UNTYPED custom notifier (its answer false = invalid): [o0=5 o1='!x'] -> defaults
+    [2, 10, 0, 0, 1, 1, 57, 6, 0, 0, 0, 1, 0, 2, 0, 1, 53, 1, 2, 33, 120, 2],
+    # declining int, default '4', three runs: run 1 [o0=3][o0=7] defaults; run 2 no source, defaults; run 3 [o0=x (refused)] [o0=8] defaults
+    [1, 10, 0, 0, 1, 1, 52, 1, 0, 1, 0, 1, 51, 1, 0, 1, 0, 1, 55, 2, 6, 2, 6, 1, 0, 1, 0, 1, 120, 1, 0, 1, 0, 1, 56, 2],
 ]
 # three runs as an application that re-reads its configuration does them (level/ids/name in one ValueMap, plain bound to an int):
 #   run 1: [level=3 ids=1 ids=2] [level=4 name=first plain=8] defaults   run 2: [ids=9] [level=7 name=second ids=10] defaults   run 3: [plain=2] [] defaults
@@ -638,10 +856,12 @@ def gen(seed, tier):
     out = [(c, {'kind': 'fixed'}) for c in FIXED]
     while len(out) < total - 1:
         r = rnd.random()
-        if r < 0.3:
+        if r < 0.25:
             out.append((gen_foreign(rnd), {'kind': 'foreign-names-in-parsed-set'}))
-        elif r < 0.55:
+        elif r < 0.45:
             out.append((gen_runs(rnd), {'kind': 'several-runs-over-the-same-targets'}))
+        elif r < 0.65:
+            out.append((gen_declining(rnd), {'kind': 'typed-notifier-declines-ownership'}))
         else:
             out.append((gen_case(rnd), {'kind': 'random'}))
     out.append((LAST, {'kind': 'fixed'}))
